@@ -66,7 +66,7 @@ func TestVF_C33(t *testing.T) {
 		"a block whose deletion mark is older than the delete delay; an old partial upload) x delete delay {0,48h} x lister {concurrent, recursive}; a fault-free compaction cycle " +
 		"(BucketCompactor.Compact + the sync/retention/partial-cleanup tail of compactMainFn) counts the R reads issued by the metadata sync (listing, meta.json exists/get, deletion-mark.json, no-compact-mark.json); " +
 		"then for every r <= R and error kind {transient error, context deadline exceeded} - and for every read that returns a reader also {call succeeds but the reader breaks after 0 bytes / half / one byte short} - a fresh compactor runs the cycle on a fresh copy of the state with the r-th sync read failing once; " +
-		"oracle: no mutating bucket operation (upload, delete) is applied after the failed read in that cycle; distinct = (state, r, kind); non-trivial = the fault was injected and the fault-free run " +
+		"oracle: no mutating bucket operation (upload, delete) is applied after the failed read in that cycle; sets without vertical compaction additionally run a shared-Syncer phase: inside the first bucket operation the compactor issues after a sync, ANOTHER SyncMetas on the same Syncer (uncached fetcher) runs to completion with one failing meta.json read; oracle there: the foreign sync reports its error and no uploaded compaction result spans an existing complete unmarked block that is not among its sources; distinct = (state, r, kind); non-trivial = the fault was injected and the fault-free run " +
 		"performed destructive work after its r-th read")
 	nsets := r.N(3, 24)
 	r.Assume("production wiring is mirrored from cmd/thanos/compact.go: fetcher and marker filters are the only readers of the sync view; concurrency 1")
@@ -79,7 +79,7 @@ func TestVF_C33(t *testing.T) {
 			continue
 		}
 		rng := r.Rand(c)
-		set := vfcrigGenSet(rng, c)
+		set := vfcrigGenSetOf(rng, c, []string{"aligned", "replicas", "vertical-shifted", "no-compact", "empty-block", "two-groups", "replicas-penalty", "multi-result"})
 		opts := vfcrigOpts{DeleteDelay: vfkit.Pick(rng, []time.Duration{0, 48 * time.Hour}), Lister: vfkit.Pick(rng, []string{"concurrent", "recursive"})}
 		// build the state once
 		tSet := time.Now()
@@ -208,6 +208,11 @@ func TestVF_C33(t *testing.T) {
 		close(jobCh)
 		wg.Wait()
 		t.Logf("set %d: %d faulted runs in %v", c, len(jobs), time.Since(tSet))
+		if !set.Vertical && len(set.ReplicaLabels) == 0 {
+			tSet = time.Now()
+			n := vfc33ForeignSync(ctx, t, r, c, set, opts, core0, snap, scratch)
+			t.Logf("set %d: %d runs with a failed sync of another user of the Syncer in %v", c, n, time.Since(tSet))
+		}
 	}
 	r.Require(int64(nsets*20), nsets*5)
 }
@@ -289,4 +294,164 @@ func vfc33PutMeta(ctx context.Context, bkt objstore.Bucket, id ulid.ULID) error 
 		return err
 	}
 	return bkt.Upload(ctx, path.Join(id.String(), metadata.MetaFilename), &buf)
+}
+
+// vfc33GapCheck is the oracle of the shared-Syncer phase: a freshly uploaded compaction result must not span an existing, complete,
+// unmarked block of its own group that is not among its sources - that can only come from planning on a view that lacks the block.
+func vfc33GapCheck(mem *objstore.InMemBucket, resultMetaName string) (string, bool) {
+	objs := mem.Objects()
+	var res metadata.Meta
+	if err := json.Unmarshal(objs[resultMetaName], &res); err != nil || res.Thanos.Source != metadata.CompactorSource {
+		return "", false
+	}
+	src := map[ulid.ULID]bool{}
+	for _, s := range res.Compaction.Sources {
+		src[s] = true
+	}
+	for name, body := range objs {
+		if path.Base(name) != metadata.MetaFilename || name == resultMetaName {
+			continue
+		}
+		var m metadata.Meta
+		if err := json.Unmarshal(body, &m); err != nil || m.Thanos.GroupKey() != res.Thanos.GroupKey() {
+			continue
+		}
+		dir := path.Dir(name)
+		if _, marked := objs[dir+"/"+metadata.DeletionMarkFilename]; marked {
+			continue
+		}
+		if _, marked := objs[dir+"/"+metadata.NoCompactMarkFilename]; marked {
+			continue
+		}
+		if !vfcrigComplete(objs, &m) {
+			continue
+		}
+		covered := true
+		for _, s := range m.Compaction.Sources {
+			if !src[s] {
+				covered = false
+			}
+		}
+		if covered {
+			continue
+		}
+		if m.MinTime < res.MaxTime && res.MinTime < m.MaxTime {
+			return fmt.Sprintf("result %s [%d,%d) spans block %s [%d,%d) which exists completely, is unmarked and is not among the result's sources", res.ULID, res.MinTime, res.MaxTime, m.ULID, m.MinTime, m.MaxTime), true
+		}
+	}
+	return "", false
+}
+
+// vfc33ForeignSync: the Syncer is shared (cmd/thanos/compact.go: compaction loop, progress calculation, cleanup). While a compaction
+// iteration is between its own successful sync and the use of the view, ANOTHER user's SyncMetas runs to completion on the same Syncer
+// and one of its meta.json reads fails. The interleaving is forced through the bucket: the foreign sync runs inside the first bucket
+// operation the compactor issues after a sync. The failed foreign sync must be a no-op for the iteration. The fetcher does not cache
+// (every sync reads every meta.json), so that an existing block can be missing from a failed sync's view at all.
+func vfc33ForeignSync(ctx context.Context, t *testing.T, r *vfkit.Run, c int, set vfcrigSet, opts vfcrigOpts, core0 *vfcfbCore, snap map[string][]byte, scratch string) int {
+	opts.NoFetcherCache = true
+	type outcome struct {
+		core       *vfcfbCore
+		cycleErr   error
+		foreignErr error
+		ran        bool
+		gap        string
+	}
+	run := func(hookSeq, relRead int, kind vfc33Kind) (*outcome, error) {
+		core := vfcrigRestore(ctx, snap)
+		vfcrigCopyLastMod(core0, core)
+		cctx, cancel := context.WithTimeout(ctx, 5*time.Minute)
+		defer cancel()
+		dir, err := os.MkdirTemp(scratch, "fs")
+		if err != nil {
+			return nil, err
+		}
+		defer os.RemoveAll(dir)
+		comp, err := vfcrigNewCompactor(cctx, set, opts, core.view("sync", true), core.view("compactor", false), dir)
+		if err != nil {
+			return nil, err
+		}
+		out := &outcome{core: core}
+		core.afterMut = func(op vfcfbOp) {
+			if op.Kind == "upload" && op.Class == "meta" && out.gap == "" {
+				if g, bad := vfc33GapCheck(core.mem, op.Name); bad {
+					out.gap = g
+				}
+			}
+		}
+		if hookSeq > 0 {
+			core.mu.Lock()
+			core.beforeOpSeq = hookSeq
+			core.beforeOp = func(vfcfbOp) {
+				core.armReadFaultRelative(relRead, kind.err, kind.cut)
+				out.foreignErr = comp.sy.SyncMetas(cctx)
+				out.ran = true
+			}
+			core.mu.Unlock()
+		}
+		out.cycleErr = comp.cycle(cctx)
+		return out, nil
+	}
+	free, err := run(0, 0, vfc33Kinds[0])
+	if err != nil {
+		t.Fatalf("rig: %v", err)
+	}
+	if free.cycleErr != nil {
+		r.Inconclusive(fmt.Sprintf("fault-free cycle with the uncached fetcher failed on set %s: %v", set.Name, free.cycleErr))
+		return 0
+	}
+	if free.gap != "" {
+		r.Violation(c, "compaction-planned-without-existing-block:fault-free", free.gap, map[string]any{"set": set.describe()})
+		return 0
+	}
+	// hook points: the first operation of the compactor proper after each sync; victims: the meta.json gets of the first sync
+	ops := free.core.ops()
+	var hooks []int
+	var metaGets []int // read numbers (relative to the start of a sync) of the meta.json gets
+	firstSyncDone := false
+	for i, o := range ops {
+		if o.View == "compactor" && i > 0 && ops[i-1].View == "sync" {
+			hooks = append(hooks, o.Seq)
+			firstSyncDone = true
+		}
+		if !firstSyncDone && o.Kind == "get" && o.Class == "meta" {
+			metaGets = append(metaGets, o.ReadSeq)
+		}
+	}
+	if len(hooks) == 0 || len(metaGets) == 0 {
+		r.Inconclusive("no hook point / no meta.json read for the shared-Syncer phase on set " + set.Name)
+		return 0
+	}
+	if !r.Thorough() && len(hooks) > 2 {
+		hooks = hooks[:2]
+	}
+	n := 0
+	kinds := []vfc33Kind{vfc33Kinds[0], vfc33BodyKinds[1]}
+	for _, h := range hooks {
+		for gi, g := range metaGets {
+			kind := kinds[gi%2]
+			out, err := run(h, g, kind)
+			if err != nil {
+				t.Fatalf("rig: %v", err)
+			}
+			n++
+			r.Eval(1)
+			if !out.ran || out.core.failedReadOp() == nil {
+				r.Count("foreign_sync_fault_not_reached", 1)
+				continue
+			}
+			r.Count("foreign_failed_syncs", 1)
+			r.Distinct(fmt.Sprintf("%d|%s|foreign|%d|%d", c, set.Name, h, g))
+			if out.foreignErr == nil {
+				r.Violation(c, "sync-reports-success-after-failed-read:foreign-sync", "the interleaved SyncMetas returned no error although one of its meta.json reads failed", map[string]any{"set": set.describe()})
+				continue
+			}
+			if out.gap != "" {
+				r.Violation(c, "compaction-planned-without-existing-block:after-failed-sync-of-another-syncer-user",
+					fmt.Sprintf("a SyncMetas of another user of the shared Syncer failed (%s on %s) between the iteration's own sync and its use; afterwards %s", kind.name, out.core.failedReadOp().Name, out.gap),
+					map[string]any{"set": set.describe(), "delete_delay": opts.DeleteDelay.String(), "lister": opts.Lister, "hook_before_operation": h, "failed_read": out.core.failedReadOp(), "error_kind": kind.name,
+						"foreign_sync_error": fmt.Sprint(out.foreignErr), "cycle_error": fmt.Sprint(out.cycleErr), "operations": vfcfbFmtOps(out.core.ops(), 300)})
+			}
+		}
+	}
+	return n
 }
